@@ -60,6 +60,10 @@ def run(ctx: Ctx) -> None:
     from .c16 import decode_set_store_local, default_dirs_agree
     decode_set_store_local(ctx, v, "C07.R12")
     default_dirs_agree(ctx, v, "C07.R12")
+    from .c09 import load_uses_resolved_keys
+    rep.rule("C07.R13", "as C09.R17: while an evaluation runs, a path that another process re-points is still read under the key resolved at the start (no result is stored under "
+                        "the key of other inputs)")
+    load_uses_resolved_keys(ctx, "C07.R13")
     f = ctx.prog.func("dds._api._store")
     if f is not None:
         rep.info("C07.R1", f.qname, "delayed creation of the default store is a check-then-set on a module global inside one process (listed, not judged: the property is about processes)", f.loc())
